@@ -103,7 +103,7 @@ def bool_setting_edges(cfg, du, env_name):
     return te, fe
 
 
-LOOP_OK = re.compile(CLOSURE_OK.pattern + r"|std::iter::Iterator::next|std::iter::IntoIterator::into_iter|.* as std::iter::Iterator>::next|.* as std::iter::IntoIterator>::into_iter|core::str::<impl str>::split|core::slice::<impl \\[T\\]>::iter|std::vec::Vec::<T, A>::(iter|len)|std::iter::Iterator::(map|filter)")
+LOOP_OK = re.compile(CLOSURE_OK.pattern + r"|std::iter::Iterator::next|std::iter::IntoIterator::into_iter|.*IntoIterator for .*>::into_iter|.* as std::iter::Iterator>::next|.* as std::iter::IntoIterator>::into_iter|core::str::<impl str>::split|core::slice::<impl \\[T\\]>::iter|std::vec::Vec::<T, A>::(iter|len)|std::iter::Iterator::(map|filter)")
 
 
 def _bool_sources(du, l, seen=None, depth=0):
